@@ -43,6 +43,8 @@ Xp = U(Pressure, "wXp")
 Xv = U(Volume, "wXv"); Xv.equals(5 * Xa * Xc)
 Xg.equals(2 * Meter)
 Jib = U(Length, "wJib"); Job = U(Length, "wJob")
+# prefixes whose value leaves the range of a double (10**-336 is 0.0, 10**336 does not convert)
+Big = measured.Prefix(10, 336); Tiny = measured.Prefix(10, -336); Edge = measured.Prefix(10, -324)
 '''
 
 UNCONV_PAIRS = [
@@ -56,6 +58,8 @@ UNCONV_PAIRS = [
     ("Xv", "Xa**3"), ("Xv", "Xa*Xc"), ("Xa*Xc", "Xv"), ("Xv", "Xb*Xc"), ("Xv/Xc", "Xa"),
     ("Xm*Xg/Second**2", "Kilogram*Meter/Second**2"), ("Xf*Xa", "Xm*Xa**2/Xt**2"),
     ("Xp*Xc", "Xf"), ("Xp*Xd", "Xf"), ("Xs*Xt", "Xa"), ("Xs*Xt", "Xb"), ("Xc*Xd", "Xa**4"),
+    ("Xa", "Tiny*Xb"), ("Big*Xa", "Xb"), ("Tiny*Xa", "Xb"), ("Xa", "Big*Xb"), ("Xa", "Edge*Xb"),
+    ("Meter", "Tiny*Foot"), ("Big*Meter", "Foot"), ("Xg", "Tiny*Foot"),
 ]
 
 OPS = ("in_unit", "add", "sub", "eq", "lt", "le", "gt", "ge")
@@ -79,7 +83,12 @@ def run_op(op: str, u: Any, v: Any) -> Dict[str, Any]:
                 "lt": lambda: a < b, "le": lambda: a <= b, "gt": lambda: a > b,
                 "ge": lambda: a >= b}[op]()
 
-    ex = explore(fn, max_paths=32)
+    # CPython's numeric range matters here: which exception escapes is the subject
+    symnum.FLOAT_RANGE[0] = True
+    try:
+        ex = explore(fn, max_paths=32)
+    finally:
+        symnum.FLOAT_RANGE[0] = False
     if not ex.complete:
         raise symnum.HarnessError("path limit")
     paths = []
@@ -228,7 +237,12 @@ def judge(rep: report.Report, mode: str, normal: Dict[str, Any], opt: Dict[str, 
             pcx = parse((bad or badunit)[0][1])
             m = P.shaped_model([pcx], [X, Y]) or {"x": Fraction(1), "y": Fraction(1)}
             exn = bad[0][2] if bad else "wrong-unit"
-            rep.violation(f"C07:{exn}:{lab}:{op}",
+            extreme = any(t in lab for t in ("Big*", "Tiny*", "Edge*"))
+            sig = f"C07:{exn}:{lab}:{op}"
+            if extreme and exn in ("OverflowError", "ZeroDivisionError"):
+                # one finding per exception for prefixes outside the range of a double
+                sig = f"C07:prefix-outside-double-range:{exn}"
+            rep.violation(sig,
                           f"{exn} escapes from {op} on {lab} ({which} mode): "
                           f"{bad[0][3] if bad else ''}",
                           replay_body(op, cu, cv, prelude, float(m["x"]), float(m["y"])))
